@@ -369,6 +369,10 @@ impl<'e> Builder<'e> {
             (Expr::id(&n), v)
         } else {
             let v = self.e.range(lo, hi);
+            if (v == 0 || v == 1) && self.e.chance(1, 2) {
+                // the keyword spelling of 0 and 1 (a case-insensitive keyword operand: the renderer varies its letter case)
+                return (Expr::Bool(v == 1), v);
+            }
             (Expr::Num { v, radix: *self.e.pick(&[10u8, 16, 10]), zeros: 0 }, v)
         }
     }
